@@ -257,7 +257,7 @@ def make_jobs(mod, tier, seed, quirks):
         n = sizes[col]
         if n <= 0:
             continue
-        chunk = sizes[2] if len(sizes) > 2 else max(1, -(-n // (NWORKERS * 4)))
+        chunk = sizes[2] if len(sizes) > 2 and sizes[2] else max(1, -(-n // (NWORKERS * 4)))
         for start in range(0, n, chunk):
             jobs.append((mod.__name__, tier, seed, quirks, kind, start, min(n, start + chunk)))
     # longest-looking kinds first does not matter much; interleave kinds for balance
